@@ -298,7 +298,7 @@ fn op_brief(op: &Op) -> Value {
 fn cut_points(n: usize, base: usize, marks: &[usize], r: &mut Rng, exhaustive: bool, extra: usize) -> Vec<usize> {
     if n == 0 { return vec![]; }
     if exhaustive && n <= 20000 { return (0..n).collect(); }
-    let mut v: Vec<usize> = vec![0, 1, 2, 7, 8, 9, 15, 16, 17, 23, 24, 25, 31, 32, 33, 63, 64, 65, 71, 72, 73, 127, 128, 129, n - 1, n.saturating_sub(2), n.saturating_sub(8), n.saturating_sub(9), n / 2];
+    let mut v: Vec<usize> = vec![0, 1, 2, 7, 8, 9, 15, 16, 17, 23, 24, 25, 31, 32, 33, 63, 64, 65, 71, 72, 73, 79, 80, 81, 87, 88, 127, 128, 129, n - 1, n.saturating_sub(2), n.saturating_sub(8), n.saturating_sub(9), n / 2];
     for &m in marks { for d in [-1i64, 0, 1] { let x = m as i64 - base as i64 + d; if x >= 0 { v.push(x as usize); } } }
     let mut b = 4096usize;
     while b < base + n { for d in [-1i64, 0, 1] { let x = b as i64 - base as i64 + d; if x >= 0 { v.push(x as usize); } } b += 4096; }
@@ -766,8 +766,8 @@ fn mv_case<T: El>(cx: &mut Ctx, ic: usize, growth: f64, sow: bool, ops: &[Vec<u6
     // the final clean-reopen expectation: exactly a state at or after the last explicit sync
     let extra = json!({"es": T::ES});
     let es = T::ES;
-    let mut bm: Vec<usize> = vec![64];
-    for st in states.iter().rev().take(3) { let n = st["len"].as_u64().unwrap_or(0) as usize; bm.push(64 + n * es); bm.push(64 + n.saturating_sub(1) * es); }
+    let mut bm: Vec<usize> = vec![80];
+    for st in states.iter().rev().take(3) { let n = st["len"].as_u64().unwrap_or(0) as usize; bm.push(80 + n * es); bm.push(80 + n.saturating_sub(1) * es); }
     let mut sim = Disk::new();
     for op in &tr { apply(&mut sim, op); }
     if let Err(w) = tracer_in_sync(&dir, &sim) { panic!("C19 tracer out of sync with the file system:{}", w); }
@@ -786,7 +786,7 @@ fn mv_case<T: El>(cx: &mut Ctx, ic: usize, growth: f64, sow: bool, ops: &[Vec<u6
     if let Some(fin) = fin {
         if let Some(f) = fin.get("v.bin") {
             let mut imgs: Vec<Vec<u8>> = vec![f.clone()];
-            for t in [f.len() / 2, 64 + shadow.len() * es, f.len().saturating_sub(1), 63] { if t < f.len() { imgs.push(f[..t].to_vec()); } }
+            for t in [f.len() / 2, 80 + shadow.len() * es, f.len().saturating_sub(1), 79, 80] { if t < f.len() { imgs.push(f[..t].to_vec()); } }
             let mut g = f.clone(); if g.len() > 40 { let i = 8 + r.below(32) as usize; g[i] ^= 1 << r.below(8); imgs.push(g); }
             for im in imgs { mv_coq_case(cx, es, &im); }
         }
@@ -1018,23 +1018,31 @@ fn once_case(cx: &mut Ctx, cell: &'static str, key: &'static str, cj: Value, sta
 }
 
 fn zipoffset_case(cx: &mut Ctx, recs: &[String], checksum: u8, exhaustive: bool) {
+    let cell = "ZipOffsetBlobStore";
     let cj = json!({"cell": "zipoffset", "records": recs, "checksum": checksum, "exhaustive": exhaustive});
-    let state = json!({"records": recs});
-    let nrec = recs.len();
-    // the offset index is neither written nor read back: every non-empty store reloads with zero records
-    let class_of = move |out: &Value, _kind: &str, _why: &str| -> Option<&'static str> {
-        if nrec > 0 && out.get("ok").map(|s| s["records"].as_array().map(|a| a.is_empty()).unwrap_or(false)).unwrap_or(false) { Some("zip_offset_index_not_persisted") } else { None }
-    };
-    let mut w = |path: &str| -> Result<(), String> {
+    let build = || -> Result<ZipOffsetBlobStore, String> {
         let mut cfg = zipora::blob_store::ZipOffsetBlobStoreConfig::default();
         cfg.checksum_level = checksum; cfg.compress_level = 0;
         let mut b = ZipOffsetBlobStoreBuilder::with_config(cfg).map_err(|e| e.to_string())?;
         for rcd in recs { b.add_record(&unhex(rcd)).map_err(|e| e.to_string())?; }
-        let st = b.finish().map_err(|e| e.to_string())?;
-        for (i, rcd) in recs.iter().enumerate() { if st.get(i as u32).ok() != Some(unhex(rcd)) { return Err("store does not return its records before saving".into()); } }
-        st.save_to_file(path).map_err(|e| e.to_string())
+        b.finish().map_err(|e| e.to_string())
     };
-    once_case(cx, "ZipOffsetBlobStore", "zipoffset", cj, state, "s.zob", exhaustive, &class_of, &mut w, &[128], None);
+    // what the finished in-memory store presents is what a reopen has to present
+    let held: Vec<String> = match guarded(|| build().map(|st| (0..st.len()).map(|i| st.get(i as u32).map(|d| hex(&d)).unwrap_or_else(|e| format!("unreadable: {}", e))).collect::<Vec<_>>())) {
+        Ok(Ok(h)) => h,
+        Ok(Err(_)) => { cx.sum.dist("zipoffset_build_refused"); return; }
+        Err(p) => { cx.sum.eval(cell, &cj.to_string(), true); cx.sum.fail(cell, None, cj, &format!("builder panicked: {}", p)); return; }
+    };
+    if held != recs {
+        // the builder's finish() is a placeholder that drops every record (recorded finding, belongs to C03 as well)
+        let class = if held.is_empty() && !recs.is_empty() { Some("zip_offset_store_is_stub") } else { None };
+        cx.sum.fail(cell, class, cj.clone(), &format!("the finished store holds {} records, {} were added", held.len(), recs.len()));
+        if class.is_none() { return; }
+    }
+    let state = json!({"records": held});
+    let none = |_: &Value, _: &str, _: &str| -> Option<&'static str> { None };
+    let mut w = |path: &str| -> Result<(), String> { build()?.save_to_file(path).map_err(|e| e.to_string()) };
+    once_case(cx, cell, "zipoffset", cj, state, "s.zob", exhaustive, &none, &mut w, &[128], None);
 }
 fn dict_case(cx: &mut Ctx, text: &[u8], minp: usize, maxp: usize, exhaustive: bool) {
     let cj = json!({"cell": "dict", "text": hex(text), "min": minp, "max": maxp, "exhaustive": exhaustive});
